@@ -277,3 +277,16 @@ Theorem C04_initial_mss_bound : forall mss mtu ts sack,
   (TcpEst.initMaxPayload mss mtu ts sack <= mss \/ TcpEst.initMaxPayload mss mtu ts sack = 1).
 Proof. exact TcpEstP.initMaxPayload_bound. Qed.
 Print Assumptions C04_initial_mss_bound.
+
+(* the accepted side: the connection a listener hands out starts from the SYN's window field as it
+   is, the SYN's scale option, and its own scale only if the SYN carried the option
+   (compared with the accepted endpoint's first snapshot by the C03 check) *)
+Theorem C04_passive_window_state : forall iss irs synWnd o stackSack lrcv sb mtu,
+  let t := TcpEst.passive_established iss irs synWnd o stackSack lrcv sb mtu in
+  sndWnd (SN t) = synWnd /\
+  sndWndScale (SN t) = (if 0 <? TcpHs.so_ws o then TcpHs.so_ws o else 0) /\
+  rcvWndScale (RC t) = (if TcpHs.so_ws o <? 0 then 0 else TcpHs.findWndScale lrcv) /\
+  cwnd (SN t) = 10 /\ outstanding (SN t) = 0 /\ tstate (SN t) = tDisabled /\
+  sndNxt (SN t) = u32 (iss + 1) /\ rcvNxt (RC t) = u32 (irs + 1).
+Proof. exact TcpEstP.passive_established_spec. Qed.
+Print Assumptions C04_passive_window_state.
